@@ -8,5 +8,6 @@ CONSTANTS
   CheckCancel = TRUE
   Recheck = TRUE
   Fix6 = TRUE
+  FixReg = TRUE
 INVARIANTS SlotImpliesSuspended ResumeOnce NoLostWake TokenHasTaker TimeoutSound CanceledSound NoLostTimeout
 CHECK_DEADLOCK FALSE
